@@ -18,6 +18,9 @@ typedef cpuset_t cpu_set_t;
 #include <assert.h>
 #include <string.h>
 #include <pthread.h>
+#ifdef PHOTOSPLINE_VERIF
+#include "photospline_verif_sched.h"
+#endif
 #include <sched.h>
 
 #include <cholmod.h>
